@@ -488,6 +488,104 @@ def search_scale(ctx, rng, budget):
     return hits, n_eval, len(distinct)
 
 
+SNIPPET_WSCALE = '''
+import json, sys, warnings
+import numpy as np
+warnings.simplefilter('ignore')
+import abel.tools.vmi as vmi
+p = json.loads(%(params)r)
+IM = np.array(p['IM']); W = np.array(p['W']); c = float.fromhex(p['c'])
+origin = tuple(p['origin']) if isinstance(p['origin'], list) else p['origin']
+kw = dict(odd=p['odd'], use_sin=p['use_sin'], method=p['method'])
+d1 = vmi.Distributions(origin, p['rmax'], p['order'], weights=W, **kw); r1 = d1.image(IM)
+d2 = vmi.Distributions(origin, p['rmax'], p['order'], weights=c * W, **kw); r2 = d2.image(IM)
+bad = []
+for name, f in [('cos', lambda r: r.cos()), ('cossin', lambda r: r.cossin()), ('harmonics', lambda r: r.harmonics()),
+                ('Ibeta', lambda r: r.Ibeta(p['window'])), ('valid', lambda r: np.asarray(r.valid, float))]:
+    a, b = f(r1), f(r2)
+    if p['exact']:
+        ok = np.array_equal(a, b, equal_nan=True)
+    elif name in ('valid', 'Ibeta'):
+        ok = True
+    else:
+        sel = p['radii']; tol = np.array(p['tol'])
+        ok = bool(np.all(np.abs(a[:, sel] - b[:, sel]) <= tol[None, :]))
+    if not ok: bad.append(name)
+print('C15 weights multiplied by', c, '(N = %%d):' %% d1.N, 'results unchanged' if not bad else 'FAILS for ' + ', '.join(bad))
+sys.exit(0 if not bad else 1)
+'''
+
+
+def search_wscale(ctx, rng, budget):
+    """All weights multiplied by 2^k, |k| <= 300: every result is unchanged -- bit for bit for
+    N <= 3 angular terms (the hand-written inverses scale exactly), to rounding at
+    well-conditioned radii for N > 3 (numpy.linalg.inv)."""
+    import abel.tools.vmi as vmi
+    hits, n_eval, distinct = [], 0, set()
+    for it in range(budget):
+        h, w = [int(v) for v in rng.integers(6, 28, 2)]
+        if rng.random() < 0.6:
+            o = (int(rng.integers(h)), int(rng.integers(w)))
+        else:
+            o = L.ORIGIN_STRINGS[rng.integers(len(L.ORIGIN_STRINGS))]
+        row, col = L.resolve_origin((h, w), o)
+        rm = L.RMAX_KW[rng.integers(9)] if rng.random() < 0.7 else int(rng.integers(1, max(h, w)))
+        order, odd = [(0, False), (1, True), (2, False), (2, True), (4, False), (3, True), (6, False), (4, True), (8, False),
+                      (5, True)][rng.integers(10)]
+        orders, odd_r = L.orders_of(order, odd)
+        N = len(orders)
+        meth = ['nearest', 'linear'][rng.integers(2)]
+        sin = bool(rng.integers(2))
+        W = rng.uniform(0.2, 3, (h, w)) * (rng.random((h, w)) < 0.95)
+        IM = rng.normal(size=(h, w)) + 2
+        k = int(rng.integers(-300, 301))
+        c = 2.0 ** k
+        window = int([1, 2, 3][rng.integers(3)])
+        kw = dict(odd=odd, use_sin=sin, method=meth)
+        exact = N <= 3
+        n_eval += 1
+        distinct.add(('wscale', min(N, 4), meth, sin, np.sign(k)))
+        bad, radii, tol = [], [], []
+        try:
+            with warnings.catch_warnings(), np.errstate(all='ignore'):
+                warnings.simplefilter('ignore')
+                d1 = vmi.Distributions(o, rm, order, weights=W, **kw)
+                r1 = d1.image(IM)
+                d2 = vmi.Distributions(o, rm, order, weights=c * W, **kw)
+                r2 = d2.image(IM)
+                if not exact:
+                    conds = L.hankel_cond((h, w), row, col, W, orders, odd_r, meth, sin, d1.rmax)
+                    radii = [int(r) for r in range(d1.rmax + 1) if conds[r] <= 1e6]
+                    tol = ((1e-8 + 1e-12 * conds[radii]) * (1 + np.abs(r1.cos()[:, radii]).max(axis=0))).tolist() if radii else []
+                for name, f in [('cos', lambda r: r.cos()), ('cossin', lambda r: r.cossin()), ('harmonics', lambda r: r.harmonics()),
+                                ('Ibeta', lambda r: r.Ibeta(window)), ('valid', lambda r: np.asarray(r.valid, float))]:
+                    a, b = f(r1), f(r2)
+                    if exact:
+                        ok = np.array_equal(a, b, equal_nan=True)
+                    elif name in ('valid', 'Ibeta') or not radii:
+                        ok = True
+                    else:
+                        ok = bool(np.all(np.abs(a[:, radii] - b[:, radii]) <= np.array(tol)[None, :]))
+                    if not ok:
+                        bad.append(name)
+        except Exception as e:     # noqa
+            bad.append('exception %s: %s' % (type(e).__name__, e))
+        if bad:
+            params = dict(IM=IM.tolist(), W=W.tolist(), origin=oj(o), rmax=rm, order=order, odd=odd, use_sin=sin, method=meth,
+                          c=float(c).hex(), window=window, exact=bool(exact), radii=radii, tol=tol)
+            if N > 3 and k < -40:
+                key = 'C15:weights-scale:N>3:absolute-threshold-of-the-general-inverse'
+            else:
+                key = 'C15:weights-scale:N=%s:method=%s:%s' % (N if N <= 3 else '>3', meth, 'down' if k < 0 else 'up')
+            hits.append(Hit('weights-scale', key,
+                            'all weights multiplied by 2^%d (shape %dx%d, origin %r, rmax %r, order %d, odd %s, N = %d, %s, use_sin %s): '
+                            '%s change%s' % (k, h, w, o, rm, order, odd, N, meth, sin, ', '.join(bad),
+                                             '' if not exact else ' (expected bit for bit equal)'),
+                            SNIPPET_WSCALE % dict(params=json.dumps(params)),
+                            dict(k=k, N=N, order=order, odd=odd, method=meth, shape=[h, w])))
+    return hits, n_eval, len(distinct)
+
+
 def run(ctx):
     rng = np.random.default_rng(ctx.seed)
     warnings.simplefilter('ignore')
@@ -515,8 +613,11 @@ def run(ctx):
     h1, e1, d1 = search_repr(ctx, rng, (180 if ctx.quick else 1800) * mult)
     h2, e2, d2, samples = search_invariance(ctx, rng, (350 if ctx.quick else 3500) * mult)
     h3, e3, d3 = search_scale(ctx, rng, (150 if ctx.quick else 2000) * mult)
-    h2 = h2 + h3
-    e2, d2 = e2 + e3, d2 + d3
+    h4, e4, d4 = search_wscale(ctx, rng, (200 if ctx.quick else 2500) * mult)
+    dfails, e5, d5 = L.dtype_search(rng, (150 if ctx.quick else 2000) * mult, 'representations', 'C15')
+    h5 = [Hit('dtype-independence', k_, 'cossin / harmonics / Ibeta / helpers: ' + w_, sn_, da_) for (k_, w_, sn_, da_) in dfails]
+    h2 = h2 + h3 + h4 + h5
+    e2, d2 = e2 + e3 + e4 + e5, d2 + d3 + d4 + d5
     ctx.cov.update(evaluations=e1 + e2 + n_cases, distinct_nontrivial=d1 + d2,
                    rule='search 1: random coefficient arrays for each of the 18 (order, parity) cases, the four '
                         'representations evaluated at 7 random angles (tolerance 1e-9 relative to the coefficient sum); '
@@ -526,7 +627,9 @@ def run(ctx):
                         'distinct by (invariance, method, use_sin, odd, N); search 3: the image multiplied by +-2^k (|k| <= 700, '
                         'compared bit for bit) or +-10^k (|k| <= 280, 1e-9): cos/cossin/harmonics/I scale, beta (windows 1,2,3,5) is '
                         'unchanged, beta_n = P_n/P_0 exactly wherever P_0 != 0, rIbeta and the module-level Ibeta/rIbeta/harmonics/'
-                        'rharmonics helpers agree with the object',
+                        'rharmonics helpers agree with the object; search 4: all weights times 2^k, |k| <= 300: every representation unchanged, bit '
+                        'for bit for N <= 3, to rounding at radii with cond <= 1e6 for N > 3; search 5: dtype independence of cossin / '
+                        'harmonics / Ibeta / rIbeta / helpers for integer (8..64 bit) and float32 images and weights up to the type extremes',
                    samples=samples, exhaustive=False)
     new, seen = 0, set()
     for h in h0 + h1 + h2:
